@@ -1,2 +1,673 @@
-/- placeholder: the C07 driver is not built yet -/
-def main : IO Unit := IO.println "C07: driver not built yet"
+/- C07 line-protocol driver: prints `model <TAB> spec` for each case line.
+
+   new kind=var alts=<letters of i f t m> n=N       N default-constructed variants ("slots")
+       emplace s=K i=I v=N [via=type]   assign|ctor s=K from=J mv=0|1   swap s=K with=J   rel s=K with=J
+       conv s=K a=<i s l f t m> v=N how=ctor|assign          converting constructor / assignment
+       get_if s=K i=I [via=type]   holds s=K i=I   visit s=[K,..] [idx=1]
+   new kind=opt alts=<i|f|t|m> n=N                  optional<T> slots and partner optional<U> slots
+       reset s=K   null s=K how=ctor|assign   emplace s=K v=N   val s=K a=.. v=N how=ctor|assign
+       assign|ctor s=K from=J mv=..   swap s=K with=J [via=member]   pset j=J [v=N]
+       conv s=K from=J how=ctor|assign mv=..   rel s=K with=J   relm s=K with=J   reln s=K   relv s=K a=own|i v=N
+       has s=K   value_or s=K v=N [mv=1]   and_then s=K f=inc|none   or_else s=K [v=N] [mv=1]
+   new kind=oref n=N                                optional<int&> slots over three int cells
+       bind s=K c=C how=ctor|assign|emplace   null s=K how=..   reset s=K   assign|ctor   swap   write s=K v=N
+       get s=K   rel s=K with=J   reln s=K   conv s=K
+   new kind=exp alts=<TE> n=N                       expected<T,E> slots
+       ctor_def|ctor_val|ctor_err s=K [v=N]   emplace s=K v=N   assign|ctor   swap   assign_unex s=K v=N
+       has s=K   value_or s=K v=N [mv=1]   and_then s=K f=inc|fail [v=N]   or_else s=K f=recover|same [v=N]
+   every answer is followed by ` |` and the state of all slots.
+
+   values: i int, l long, s short (payload = value); f float (payload p = p/2, 1000 = NaN); t Trk, m Mo
+   (payload = value, -1 after being moved from).                                                         -/
+import Tetl.Proto
+import Tetl.C07.Model
+import Tetl.C07.Spec
+namespace Tetl.C07.Driver
+open Tetl Tetl.Proto Tetl.C07
+
+inductive Ty where
+  | int | lng | sht | flt | trk | mo | null
+  deriving Repr, DecidableEq, Inhabited
+
+structure Val where
+  ty : Ty
+  n : Int
+  deriving Repr, DecidableEq, Inhabited
+
+def tyOf : Char → Option Ty
+  | 'i' => some .int | 'l' => some .lng | 's' => some .sht | 'f' => some .flt
+  | 't' => some .trk | 'm' => some .mo | _ => none
+
+def Ty.isInt : Ty → Bool
+  | .int | .lng | .sht => true
+  | _ => false
+def Ty.isArith (t : Ty) : Bool := t.isInt || t == .flt
+def Ty.isClass : Ty → Bool
+  | .trk | .mo => true
+  | _ => false
+
+def showV (v : Val) : String :=
+  match v.ty with
+  | .int | .sht => s!"i{v.n}"
+  | .lng => s!"l{v.n}"
+  | .flt => if v.n == 1000 then "fnan" else s!"f{v.n}"
+  | .trk => s!"t{v.n}"
+  | .mo => s!"m{v.n}"
+  | .null => "-"
+
+/-- `mk<T>(n)` of the harness -/
+def mkV (t : Ty) (n : Int) : Val := ⟨t, n⟩
+def nullv : Val := ⟨.null, 0⟩
+
+/-- moved-from state of an element -/
+def mvd (v : Val) : Val := if v.ty.isClass then { v with n := -1 } else v
+
+/-- value of `T(x)` -/
+def convV (to : Ty) (v : Val) : Val :=
+  if to == v.ty then v
+  else if v.ty == .flt then
+    (if to == .flt then v else ⟨to, Int.tdiv v.n 2⟩)      -- float → integer / Trk(int) / Mo(int): truncation
+  else
+    (if to == .flt then ⟨.flt, 2 * v.n⟩ else ⟨to, v.n⟩)
+
+def bump (v : Val) : Val :=
+  if v.ty == .flt then (if v.n == 1000 then v else { v with n := v.n + 2 }) else { v with n := v.n + 1 }
+
+/-- numeric value ×2; `none` = NaN -/
+def num (v : Val) : Option Int :=
+  if v.ty == .flt then (if v.n == 1000 then none else some v.n) else some (2 * v.n)
+
+def relOps : RelOps Val Val := fun r a b =>
+  match num a, num b with
+  | some x, some y =>
+    (match r with
+     | .eq => x == y | .ne => x != y | .lt => decide (x < y) | .le => decide (x ≤ y)
+     | .gt => decide (x > y) | .ge => decide (x ≥ y))
+  | _, _ => r == .ne
+
+/-- implicit conversion sequence argument type → alternative type (see Model.Cand) -/
+def convTab (a t : Ty) : Option Cand :=
+  if a == t then some ⟨0, false⟩
+  else match a, t with
+    | .sht, .int => some ⟨1, false⟩                      -- integral promotion
+    | .int, .lng | .sht, .lng => some ⟨2, false⟩         -- widening integral conversion
+    | .lng, .int | .int, .sht | .lng, .sht => some ⟨2, true⟩
+    | .int, .flt | .sht, .flt | .lng, .flt => some ⟨2, true⟩   -- integer → floating: narrowing
+    | .flt, .int | .flt, .lng | .flt, .sht => some ⟨2, true⟩   -- floating → integer: narrowing
+    | .int, .trk | .sht, .trk | .lng, .trk | .flt, .trk => some ⟨3, false⟩  -- Trk(int): user-defined
+    | .int, .mo | .sht, .mo | .lng, .mo | .flt, .mo => some ⟨3, false⟩
+    | _, _ => none
+
+/-- `is_constructible_v<T, A>` for the element types of the harness -/
+def ctorOK (a t : Ty) : Bool :=
+  a == t || (a.isArith && t.isArith) || (a.isArith && t.isClass)
+
+structure Live where
+  kind : String
+  tys : List Ty
+  pty : Ty
+  cfg : Cfg
+  copyable : Bool
+  m : Except Err (List (V Val))
+  s : List (V Val)
+  so : List (Option Val)
+  se : List (Spec.E Val)
+  part : List (Option Val)
+  mr : List (Option Nat)
+  sr : List (Option Nat)
+  mcells : List Int
+  scells : List Int
+
+abbrev DState := Option Live
+
+/-! formatting -/
+def fmtVar (st : List (V Val)) : String := String.join (st.map fun v => s!" {v.idx}:{showV v.val}")
+def fmtOptM (st : List (V Val)) : String := String.join (st.map fun v => if v.idx == 1 then " " ++ showV v.val else " -")
+def fmtOptS (st : List (Option Val)) : String :=
+  String.join (st.map fun o => match o with | some v => " " ++ showV v | none => " -")
+def fmtExpM (st : List (V Val)) : String :=
+  String.join (st.map fun v => (if v.idx == 0 then " v:" else " e:") ++ showV v.val)
+def fmtE : Spec.E Val → String
+  | .val x => "v:" ++ showV x
+  | .err x => "e:" ++ showV x
+def fmtExpS (st : List (Spec.E Val)) : String := String.join (st.map fun e => " " ++ fmtE e)
+def fmtRef (st : List (Option Nat)) (cells : List Int) : String :=
+  String.join (st.map fun o => match o with | some c => s!" c{c}" | none => " -") ++ " |" ++
+    String.join (cells.map fun c => s!" {c}")
+
+def stateM (lv : Live) (st : List (V Val)) : String :=
+  match lv.kind with
+  | "var" => fmtVar st
+  | "opt" => fmtOptM st ++ " |" ++ fmtOptS lv.part
+  | _ => fmtExpM st
+def stateS (lv : Live) : String :=
+  match lv.kind with
+  | "var" => fmtVar lv.s
+  | "opt" => fmtOptS lv.so ++ " |" ++ fmtOptS lv.part
+  | _ => fmtExpS lv.se
+
+def bits (f : Rel → Except Err Bool) : Except Err String :=
+  Rel.all.foldlM (fun acc r => (f r).map fun b => acc ++ fmtBool b) ""
+def bitsP (f : Rel → Bool) : String := String.join (Rel.all.map fun r => fmtBool (f r))
+
+def optV (o : Option Val) : V Val := match o with | some v => ⟨1, v⟩ | none => ⟨0, nullv⟩
+
+/-- finish a line: model result + model state, spec result + spec state -/
+def fin (lv : Live) (mres : Except Err (String × List (V Val))) (sres : String) (lv' : Live) : DState × String :=
+  match mres with
+  | .ok (r, st) => (some { lv' with m := .ok st }, r ++ " |" ++ stateM lv' st ++ "\t" ++ sres ++ " |" ++ stateS lv')
+  | .error e => (some { lv' with m := .error e }, e.fmt ++ "\t" ++ sres ++ " |" ++ stateS lv')
+
+def ok (st : List (V Val)) : Except Err (String × List (V Val)) := .ok ("ok", st)
+
+/-- model side of an operation given as a variant `Op` -/
+def mop (lv : Live) (st : List (V Val)) (op : Op Val) : Except Err (List (V Val)) := step lv.cfg mvd st op
+
+def tyAt (lv : Live) (i : Nat) : Option Ty := lv.tys[i]?
+
+def stepVar (lv : Live) (st : List (V Val)) (l : Line) : Option (DState × String) :=
+  match l.op with
+  | "emplace" =>
+    match l.nat? "s", l.nat? "i", l.int? "v" with
+    | some k, some i, some n =>
+      (tyAt lv i).map fun t =>
+        let x := mkV t n
+        fin lv ((mop lv st (.emplace k i x)).map fun st' => ("ret=" ++ showV x, st')) ("ret=" ++ showV x)
+          { lv with s := Spec.step mvd lv.s (.emplace k i x) }
+    | _, _, _ => none
+  | "assign" | "ctor" =>
+    match l.nat? "s", l.nat? "from", l.nat? "mv" with
+    | some k, some j, some mv =>
+      if k ≥ st.length || j ≥ st.length then none
+      else if mv == 0 && !lv.copyable then some (fin lv (.ok ("nc", st)) "nc" lv)
+      else
+        let op : Op Val := if l.op == "assign" then .assign k j (mv != 0) else .ctor k j (mv != 0)
+        some (fin lv ((mop lv st op).bind ok) "ok" { lv with s := Spec.step mvd lv.s op })
+    | _, _, _ => none
+  | "swap" =>
+    match l.nat? "s", l.nat? "with" with
+    | some k, some j =>
+      if k ≥ st.length || j ≥ st.length then none
+      else some (fin lv ((mop lv st (.swap k j)).bind ok) "ok" { lv with s := Spec.step mvd lv.s (.swap k j) })
+    | _, _ => none
+  | "rel" =>
+    match l.nat? "s", l.nat? "with" with
+    | some k, some j =>
+      match st[k]?, st[j]?, lv.s[k]?, lv.s[j]? with
+      | some a, some b, some sa, some sb =>
+        some (fin lv ((bits fun r => varRel lv.cfg relOps r a b).map fun r => (r, st))
+          (bitsP fun r => Spec.varRel relOps r sa sb) lv)
+      | _, _, _, _ => none
+    | _, _ => none
+  | "conv" =>
+    match l.nat? "s", (l.str? "a").bind (fun s => s.toList.head?.bind tyOf), l.int? "v", l.str? "how" with
+    | some k, some a, some n, some how =>
+      if k ≥ st.length then none else
+      let cands := lv.tys.map (convTab a)
+      let arg := mkV a n
+      let mres : Except Err (String × List (V Val)) :=
+        match select cands with
+        | none => .ok ("nc", st)
+        | some i =>
+          match lv.tys[i]? with
+          | none => .error .oob
+          | some t =>
+            let x := convV t arg
+            if how == "ctor" then (mop lv st (.make k i x)).bind ok
+            else if t.isClass then (mop lv st (.emplace k i x)).bind ok      -- operator=(T&&): emplace<T_j>
+            else do                                                      -- scalar T_j: variant(arg) then move assignment
+              let d ← rd st k
+              let (d', _) ← assign lv.cfg mvd true d ⟨i, x⟩
+              let st' ← put st k d'
+              ok st'
+      let (sres, s') : String × List (V Val) :=
+        match Spec.select cands with
+        | none => ("nc", lv.s)
+        | some i =>
+          match lv.tys[i]? with
+          | none => ("nc", lv.s)
+          | some t => ("ok", Spec.step mvd lv.s (.emplace k i (convV t arg)))
+      some (fin lv mres sres { lv with s := s' })
+    | _, _, _, _ => none
+  | "get_if" =>
+    match l.nat? "s", l.nat? "i" with
+    | some k, some i =>
+      match st[k]?, lv.s[k]? with
+      | some v, some sv =>
+        if i ≥ lv.cfg.n then none else
+        let f (o : Option Val) : String := match o with | some x => showV x | none => "null"
+        some (fin lv ((getIf v i).map fun o => (f o, st)) (f (Spec.getIf sv i)) lv)
+      | _, _ => none
+    | _, _ => none
+  | "holds" =>
+    match l.nat? "s", l.nat? "i" with
+    | some k, some i =>
+      match st[k]?, lv.s[k]? with
+      | some v, some sv =>
+        if i ≥ lv.cfg.n then none else
+        some (fin lv (.ok (fmtBool (holds v i), st)) (fmtBool (sv.idx == i)) lv)
+      | _, _ => none
+    | _, _ => none
+  | "visit" =>
+    match l.natList? "s" with
+    | some ks =>
+      let withIdx := (l.nat? "idx").getD 0 != 0
+      match ks.mapM (fun k => st[k]?), ks.mapM (fun k => lv.s[k]?) with
+      | some vs, some svs =>
+        if vs.isEmpty || vs.length > 3 || (vs.length == 3 && lv.cfg.n > 3) then none else
+        let item (i : Nat) (x : Val) : String := (if withIdx then s!"{i}=" else "") ++ showV x ++ ","
+        let mres : Except Err (String × List (V Val)) := do
+          let t ← visitWithIndex (vs.map fun _ => lv.cfg.n) (vs.map (·.idx))
+          if t.length ≠ vs.length then .error (.pre "visit: arity")
+          let items ← (vs.zip t).mapM fun (v, i) => (getAt v i).map (item i)
+          .ok ("calls=1 ret=1 " ++ String.join items, st)
+        some (fin lv mres ("calls=1 ret=1 " ++ String.join (svs.map fun v => item v.idx v.val)) lv)
+      | _, _ => none
+    | none => none
+  | _ => none
+
+/-- optional: spec-side operation + its implementation on the variant member -/
+def optDo (lv : Live) (st : List (V Val)) (op : Spec.OOp Val) (res : String) : DState × String :=
+  fin lv ((mop lv st (Spec.optToVar nullv op)).map fun st' => (res, st')) res
+    { lv with so := Spec.ostep mvd lv.so op }
+
+def stepOpt (lv : Live) (st : List (V Val)) (l : Line) : Option (DState × String) :=
+  let T := lv.tys.headD .int
+  let inR (k : Nat) : Bool := k < st.length
+  match l.op with
+  | "reset" => (l.nat? "s").bind fun k => if inR k then some (optDo lv st (.reset k) "ok") else none
+  | "null" =>
+    match l.nat? "s", l.str? "how" with
+    | some k, some how =>
+      if !inR k then none
+      else if how == "assign" then some (optDo lv st (.reset k) "ok")
+      else some (fin lv ((mop lv st (.make k 0 nullv)).bind ok) "ok" { lv with so := Spec.ostep mvd lv.so (.reset k) })
+    | _, _ => none
+  | "emplace" =>
+    match l.nat? "s", l.int? "v" with
+    | some k, some n => if inR k then some (optDo lv st (.emplace k (mkV T n)) ("ret=" ++ showV (mkV T n))) else none
+    | _, _ => none
+  | "val" =>
+    match l.nat? "s", (l.str? "a").bind (fun s => s.toList.head?.bind tyOf), l.int? "v", l.str? "how" with
+    | some k, some a, some n, some how =>
+      if !inR k then none
+      else if !ctorOK a T then some (fin lv (.ok ("nc", st)) "nc" lv)
+      else
+        let x := convV T (mkV a n)
+        let lv' := { lv with so := Spec.ostep mvd lv.so (.emplace k x) }
+        if how == "ctor" then some (fin lv ((mop lv st (.make k 1 x)).bind ok) "ok" lv')
+        else if T.isClass && a != T then some (fin lv ((mop lv st (.emplace k 1 x)).bind ok) "ok" lv')  -- operator=(U&&)
+        else                                        -- scalar T or U == T: optional(x) then move assignment
+          let mres : Except Err (String × List (V Val)) := do
+            let d ← rd st k
+            let (d', _) ← assign lv.cfg mvd true d ⟨1, x⟩
+            let st' ← put st k d'
+            ok st'
+          some (fin lv mres "ok" lv')
+    | _, _, _, _ => none
+  | "assign" | "ctor" =>
+    match l.nat? "s", l.nat? "from", l.nat? "mv" with
+    | some k, some j, some mv =>
+      if !inR k || !inR j then none
+      else if mv == 0 && !lv.copyable then some (fin lv (.ok ("nc", st)) "nc" lv)
+      else
+        let op : Spec.OOp Val := if l.op == "assign" then .assign k j (mv != 0) else .ctor k j (mv != 0)
+        some (optDo lv st op "ok")
+    | _, _, _ => none
+  | "swap" =>
+    match l.nat? "s", l.nat? "with" with
+    | some k, some j => if inR k && inR j then some (optDo lv st (.swap k j) "ok") else none
+    | _, _ => none
+  | "pset" =>
+    (l.nat? "j").bind fun j =>
+      if j ≥ lv.part.length then none else
+      let p := (l.int? "v").map (mkV lv.pty)
+      let lv' := { lv with part := lv.part.set j p }
+      some (fin lv' (ok st) "ok" lv')
+  | "conv" =>
+    match l.nat? "s", l.nat? "from", l.str? "how" with
+    | some k, some j, some how =>
+      match lv.part[j]? with
+      | none => none
+      | some src =>
+        if !inR k then none else
+        let sop : Spec.OOp Val := match src with | some u => .emplace k (convV T u) | none => .reset k
+        let mres : Except Err (String × List (V Val)) := do
+          -- ctor: `_var{nullopt}` then `if (other.has_value()) emplace(*other)`;  assign: emplace(*other) / reset()
+          let st0 ← if how == "ctor" then mop lv st (.make k 0 nullv) else .ok st
+          let st1 ← match src with
+            | some u => mop lv st0 (.emplace k 1 (convV T u))
+            | none => if how == "ctor" then .ok st0 else mop lv st0 (.emplace k 0 nullv)
+          ok st1
+        some (fin lv mres "ok" { lv with so := Spec.ostep mvd lv.so sop })
+    | _, _, _ => none
+  | "rel" =>
+    match l.nat? "s", l.nat? "with" with
+    | some k, some j =>
+      match st[k]?, st[j]?, lv.so[k]?, lv.so[j]? with
+      | some a, some b, some sa, some sb =>
+        some (fin lv ((bits fun r => optRel relOps r a b).map fun r => (r, st)) (bitsP fun r => Spec.optRel relOps r sa sb) lv)
+      | _, _, _, _ => none
+    | _, _ => none
+  | "relm" =>
+    match l.nat? "s", l.nat? "with" with
+    | some k, some j =>
+      match st[k]?, lv.part[j]?, lv.so[k]? with
+      | some a, some p, some sa =>
+        let mres := do
+          let x ← bits fun r => optRel relOps r a (optV p)
+          let y ← bits fun r => optRel relOps r (optV p) a
+          .ok (x ++ y, st)
+        some (fin lv mres ((bitsP fun r => Spec.optRel relOps r sa p) ++ (bitsP fun r => Spec.optRel relOps r p sa)) lv)
+      | _, _, _ => none
+    | _, _ => none
+  | "reln" =>
+    (l.nat? "s").bind fun k =>
+      match st[k]?, lv.so[k]? with
+      | some a, some sa =>
+        some (fin lv (.ok ((bitsP fun r => optRelNullR r a) ++ (bitsP fun r => optRelNullL r a), st))
+          ((bitsP fun r => Spec.optRel relOps r sa (none : Option Val)) ++ (bitsP fun r => Spec.optRel relOps r (none : Option Val) sa)) lv)
+      | _, _ => none
+  | "relv" =>
+    match l.nat? "s", l.str? "a", l.int? "v" with
+    | some k, some a, some n =>
+      match st[k]?, lv.so[k]? with
+      | some o, some so =>
+        let y := if a == "own" then mkV T n else mkV lv.pty n
+        let mres := do
+          let x ← bits fun r => optRelValR relOps r o y
+          let z ← bits fun r => optRelValL relOps relOps r y o
+          .ok (x ++ z, st)
+        some (fin lv mres ((bitsP fun r => Spec.optRel relOps r so (some y)) ++ (bitsP fun r => Spec.optRel relOps r (some y) so)) lv)
+      | _, _ => none
+    | _, _, _ => none
+  | "has" =>
+    (l.nat? "s").bind fun k =>
+      match st[k]?, lv.so[k]? with
+      | some v, some sv =>
+        let f (b : Bool) := fmtBool b ++ fmtBool b ++ fmtBool b
+        some (fin lv (.ok (f (hasValue v), st)) (f sv.isSome) lv)
+      | _, _ => none
+  | "value_or" =>
+    match l.nat? "s", l.int? "v" with
+    | some k, some n =>
+      let mv := (l.nat? "mv").getD 0 != 0
+      match st[k]?, lv.so[k]? with
+      | some v, some sv =>
+        if !mv && !lv.copyable then some (fin lv (.ok ("nc", st)) "nc" lv) else
+        let mres : Except Err (String × List (V Val)) := do
+          let r ← valueOr v (mkV T n)
+          let st' ← if mv && hasValue v then put st k { v with val := mvd v.val } else .ok st
+          .ok (showV r, st')
+        let so' := if mv then lv.so.set k (sv.map mvd) else lv.so
+        some (fin lv mres (showV (sv.getD (mkV T n))) { lv with so := so' })
+      | _, _ => none
+    | _, _ => none
+  | "and_then" =>
+    match l.nat? "s", l.str? "f" with
+    | some k, some f =>
+      match st[k]?, lv.so[k]? with
+      | some v, some sv =>
+        let g (x : Val) : Option Val := if f == "none" then none else some (bump x)
+        let sh (calls : Nat) (o : Option Val) : String := s!"calls={calls} " ++ (match o with | some x => showV x | none => "-")
+        let mres : Except Err (String × List (V Val)) := do
+          let r ← andThen v g
+          .ok ((match r with | some o => sh 1 o | none => sh 0 none), st)
+        some (fin lv mres (match sv with | some x => sh 1 (g x) | none => sh 0 none) lv)
+      | _, _ => none
+    | _, _ => none
+  | "or_else" =>
+    (l.nat? "s").bind fun k =>
+      let mv := (l.nat? "mv").getD 0 != 0
+      let alt : Option Val := (l.int? "v").map (mkV T)
+      match st[k]?, lv.so[k]? with
+      | some v, some sv =>
+        if !mv && !lv.copyable then some (fin lv (.ok ("nc", st)) "nc" lv) else
+        let sh (calls : Nat) (o : Option Val) : String := s!"calls={calls} " ++ (match o with | some x => showV x | none => "-")
+        -- `*this ? *this : f()` / `*this ? move(*this) : f()`
+        let mres : Except Err (String × List (V Val)) :=
+          if hasValue v then do
+            let x ← deref v
+            let st' ← if mv then put st k { v with val := mvd x } else .ok st
+            .ok (sh 0 (some x), st')
+          else .ok (sh 1 alt, st)
+        let so' := if mv then lv.so.set k (sv.map mvd) else lv.so
+        some (fin lv mres (match sv with | some x => sh 0 (some x) | none => sh 1 alt) { lv with so := so' })
+      | _, _ => none
+  | _ => none
+
+def expDo (lv : Live) (st : List (V Val)) (viaEmplace : Bool) (op : Spec.EOp Val) (res : String) : DState × String :=
+  fin lv ((mop lv st (Spec.expToVar viaEmplace op)).map fun st' => (res, st')) res
+    { lv with se := Spec.estep mvd lv.se op }
+
+def stepExp (lv : Live) (st : List (V Val)) (l : Line) : Option (DState × String) :=
+  let T := lv.tys.headD .int
+  let E := (lv.tys[1]?).getD .int
+  let inR (k : Nat) : Bool := k < st.length
+  match l.op with
+  | "ctor_def" => (l.nat? "s").bind fun k => if inR k then some (expDo lv st false (.setVal k (mkV T 0)) "ok") else none
+  | "ctor_val" =>
+    match l.nat? "s", l.int? "v" with
+    | some k, some n => if inR k then some (expDo lv st false (.setVal k (mkV T n)) "ok") else none
+    | _, _ => none
+  | "ctor_err" =>
+    match l.nat? "s", l.int? "v" with
+    | some k, some n => if inR k then some (expDo lv st false (.setErr k (mkV E n)) "ok") else none
+    | _, _ => none
+  | "emplace" =>
+    match l.nat? "s", l.int? "v" with
+    | some k, some n => if inR k then some (expDo lv st true (.setVal k (mkV T n)) ("ret=" ++ showV (mkV T n))) else none
+    | _, _ => none
+  | "assign_unex" =>   -- etl::expected has no operator=(unexpected<G>): known finding F-C07-expected-no-unexpected-assign
+    match l.nat? "s", l.int? "v" with
+    | some k, some n => if inR k then some (fin lv (.ok ("nc", st)) ("ok=e:" ++ showV (mkV E n)) lv) else none
+    | _, _ => none
+  | "assign" | "ctor" =>
+    match l.nat? "s", l.nat? "from", l.nat? "mv" with
+    | some k, some j, some mv =>
+      if !inR k || !inR j then none
+      else if mv == 0 && !lv.copyable then some (fin lv (.ok ("nc", st)) "nc" lv)
+      else
+        let op : Spec.EOp Val := if l.op == "assign" then .assign k j (mv != 0) else .ctor k j (mv != 0)
+        some (expDo lv st false op "ok")
+    | _, _, _ => none
+  | "swap" =>
+    match l.nat? "s", l.nat? "with" with
+    | some k, some j => if inR k && inR j then some (expDo lv st false (.swap k j) "ok") else none
+    | _, _ => none
+  | "has" =>
+    (l.nat? "s").bind fun k =>
+      match st[k]?, lv.se[k]? with
+      | some v, some sv =>
+        let f (b : Bool) := fmtBool b ++ fmtBool b ++ fmtBool b
+        some (fin lv (.ok (f (v.idx == 0), st)) (f (match sv with | .val _ => true | .err _ => false)) lv)
+      | _, _ => none
+  | "value_or" =>
+    match l.nat? "s", l.int? "v" with
+    | some k, some n =>
+      let mv := (l.nat? "mv").getD 0 != 0
+      match st[k]?, lv.se[k]? with
+      | some v, some sv =>
+        if !mv && T == .mo then some (fin lv (.ok ("nc", st)) "nc" lv) else
+        let mres : Except Err (String × List (V Val)) :=
+          if v.idx == 0 then do
+            let x ← getAt v 0
+            let st' ← if mv then put st k { v with val := mvd x } else .ok st
+            .ok (showV x, st')
+          else .ok (showV (mkV T n), st)
+        let (sres, se') := match sv with
+          | .val x => (showV x, if mv then lv.se.set k (.val (mvd x)) else lv.se)
+          | .err _ => (showV (mkV T n), lv.se)
+        some (fin lv mres sres { lv with se := se' })
+      | _, _ => none
+    | _, _ => none
+  | "and_then" =>
+    match l.nat? "s", l.str? "f" with
+    | some k, some f =>
+      let n := (l.int? "v").getD 0
+      match st[k]?, lv.se[k]? with
+      | some v, some sv =>
+        if !lv.copyable then some (fin lv (.ok ("nc", st)) "nc" lv) else
+        let g (x : Val) : Spec.E Val := if f == "fail" then .err (mkV E n) else .val (bump x)
+        let mres : Except Err (String × List (V Val)) :=
+          if v.idx == 0 then (getAt v 0).map fun x => ("calls=1 " ++ fmtE (g x), st)
+          else (getAt v 1).map fun e => ("calls=0 " ++ fmtE (.err e), st)
+        some (fin lv mres (match sv with | .val x => "calls=1 " ++ fmtE (g x) | .err e => "calls=0 " ++ fmtE (.err e)) lv)
+      | _, _ => none
+    | _, _ => none
+  | "or_else" =>
+    match l.nat? "s", l.str? "f" with
+    | some k, some f =>
+      let n := (l.int? "v").getD 0
+      match st[k]?, lv.se[k]? with
+      | some v, some sv =>
+        if !lv.copyable then some (fin lv (.ok ("nc", st)) "nc" lv) else
+        let g (e : Val) : Spec.E Val := if f == "recover" then .val (mkV T n) else .err (bump e)
+        let mres : Except Err (String × List (V Val)) :=
+          if v.idx == 0 then (getAt v 0).map fun x => ("calls=0 " ++ fmtE (.val x), st)
+          else (getAt v 1).map fun e => ("calls=1 " ++ fmtE (g e), st)
+        some (fin lv mres (match sv with | .val x => "calls=0 " ++ fmtE (.val x) | .err e => "calls=1 " ++ fmtE (g e)) lv)
+      | _, _ => none
+    | _, _ => none
+  | _ => none
+
+/-- optional<int&>: the model is the `_ptr` member (a cell number or null); the reference semantics is the same
+    nullable reference, compared through the referents -/
+def stepRef (lv : Live) (l : Line) : Option (DState × String) :=
+  let n := lv.mr.length
+  let out (lv' : Live) (mr : String) (sr : String) : DState × String :=
+    (some lv', mr ++ " |" ++ fmtRef lv'.mr lv'.mcells ++ "\t" ++ sr ++ " |" ++ fmtRef lv'.sr lv'.scells)
+  let refV (cells : List Int) (o : Option Nat) : Option Val := o.bind fun c => (cells[c]?).map (mkV .int)
+  match l.op with
+  | "bind" =>
+    match l.nat? "s", l.nat? "c", l.str? "how" with
+    | some k, some c, some how =>
+      if k ≥ n || c ≥ lv.mcells.length || !(how == "ctor" || how == "assign" || how == "emplace") then none
+      else some (out { lv with mr := lv.mr.set k (some c), sr := lv.sr.set k (some c) } "ok" "ok")
+    | _, _, _ => none
+  | "null" | "reset" =>
+    (l.nat? "s").bind fun k =>
+      if k ≥ n then none else some (out { lv with mr := lv.mr.set k none, sr := lv.sr.set k none } "ok" "ok")
+  | "assign" | "ctor" =>
+    match l.nat? "s", l.nat? "from" with
+    | some k, some j =>
+      match lv.mr[j]?, lv.sr[j]? with
+      | some a, some b => if k ≥ n then none else some (out { lv with mr := lv.mr.set k a, sr := lv.sr.set k b } "ok" "ok")
+      | _, _ => none
+    | _, _ => none
+  | "swap" =>
+    match l.nat? "s", l.nat? "with" with
+    | some k, some j =>
+      match lv.mr[k]?, lv.mr[j]?, lv.sr[k]?, lv.sr[j]? with
+      | some a, some b, some sa, some sb =>
+        -- etl::swap(_ptr, rhs._ptr): temp = a; a = b; b = temp
+        some (out { lv with mr := (lv.mr.set k b).set j a, sr := (lv.sr.set k sb).set j sa } "ok" "ok")
+      | _, _, _, _ => none
+    | _, _ => none
+  | "write" =>
+    match l.nat? "s", l.int? "v" with
+    | some k, some v =>
+      match lv.mr[k]?, lv.sr[k]? with
+      | some (some c), some (some d) =>
+        some (out { lv with mcells := lv.mcells.set c v, scells := lv.scells.set d v } "ok" "ok")
+      | some none, some none => some (out lv "empty" "empty")
+      | _, _ => none
+    | _, _ => none
+  | "get" =>
+    (l.nat? "s").bind fun k =>
+      match lv.mr[k]?, lv.sr[k]? with
+      | some a, some b =>
+        let f (o : Option Val) : String := match o with | some x => showV x ++ "1" | none => "-0"
+        some (out lv (f (refV lv.mcells a)) (f (refV lv.scells b)))
+      | _, _ => none
+  | "rel" =>
+    match l.nat? "s", l.nat? "with" with
+    | some k, some j =>
+      match lv.mr[k]?, lv.mr[j]?, lv.sr[k]?, lv.sr[j]? with
+      | some a, some b, some sa, some sb =>
+        let m := bits fun r => optRel relOps r (optV (refV lv.mcells a)) (optV (refV lv.mcells b))
+        some (out lv (match m with | .ok s => s | .error e => e.fmt)
+          (bitsP fun r => Spec.optRel relOps r (refV lv.scells sa) (refV lv.scells sb)))
+      | _, _, _, _ => none
+    | _, _ => none
+  | "reln" =>
+    (l.nat? "s").bind fun k =>
+      match lv.mr[k]?, lv.sr[k]? with
+      | some a, some sa =>
+        let v := optV (refV lv.mcells a)
+        let sv := refV lv.scells sa
+        some (out lv ((bitsP fun r => optRelNullR r v) ++ (bitsP fun r => optRelNullL r v))
+          ((bitsP fun r => Spec.optRel relOps r sv (none : Option Val)) ++ (bitsP fun r => Spec.optRel relOps r (none : Option Val) sv)))
+      | _, _ => none
+  | "conv" =>   -- optional<U const&>(optional<U&>) does not compile: known finding F-C07-optional-ref-conversion
+    (l.nat? "s").bind fun k =>
+      match lv.sr[k]? with
+      | some sa => some (out lv "nc" (match refV lv.scells sa with | some x => showV x | none => "-"))
+      | none => none
+  | _ => none
+
+def newLive (l : Line) : Option Live :=
+  match l.str? "kind" with
+  | some kind =>
+    let n := (l.nat? "n").getD 3
+    if n == 0 || n > 4 then none else
+    let alts : String := match l.get? "alts" with
+      | some (.str s) => s
+      | _ => ""
+    match alts.toList.mapM tyOf with
+    | none => none
+    | some tys =>
+      let copyable := !tys.contains .mo
+      let triv := tys.all fun t => t == .int || t == .flt
+      let base : Live := { kind := kind, tys := tys, pty := .int, cfg := ⟨tys.length, triv⟩, copyable := copyable,
+                           m := .ok [], s := [], so := [], se := [], part := [], mr := [], sr := [], mcells := [], scells := [] }
+      match kind with
+      | "var" =>
+        if !(["if", "fi", "it", "ti", "tif", "ift", "tm", "iftm", "fm"].contains alts) then none else
+        let d : V Val := ⟨0, mkV (tys.headD .int) 0⟩
+        some { base with m := .ok (List.replicate n d), s := List.replicate n d }
+      | "opt" =>
+        if !(["i", "f", "t", "m"].contains alts) then none else
+        let d : V Val := ⟨0, nullv⟩
+        some { base with cfg := ⟨2, triv⟩, pty := (if alts == "i" then .lng else .int),
+                         m := .ok (List.replicate n d), so := List.replicate n none, part := List.replicate n none }
+      | "exp" =>
+        if !(["it", "ti", "if", "tm"].contains alts) then none else
+        let d : V Val := ⟨0, mkV (tys.headD .int) 0⟩
+        some { base with m := .ok (List.replicate n d), se := List.replicate n (.val d.val) }
+      | "oref" =>
+        some { base with mr := List.replicate n none, sr := List.replicate n none,
+                         mcells := [10, 20, 30], scells := [10, 20, 30] }
+      | _ => none
+  | none => none
+
+def step (st : DState) (l : Line) : DState × String :=
+  let bad := (st, "bad-op\tbad-op")
+  if l.op == "new" then
+    match newLive l with
+    | none => (none, "bad-op\tbad-op")
+    | some lv =>
+      if lv.kind == "oref" then
+        (some lv, "ok |" ++ fmtRef lv.mr lv.mcells ++ "\tok |" ++ fmtRef lv.sr lv.scells)
+      else
+        match lv.m with
+        | .ok ms => (some lv, "ok |" ++ stateM lv ms ++ "\tok |" ++ stateS lv)
+        | .error e => (some lv, e.fmt ++ "\tok |" ++ stateS lv)
+  else
+    match st with
+    | none => bad
+    | some lv =>
+      if lv.kind == "oref" then (stepRef lv l).getD bad
+      else
+        match lv.m with
+        | .error e => (st, e.fmt ++ "\t*")
+        | .ok ms =>
+          let r := match lv.kind with
+            | "var" => stepVar lv ms l
+            | "opt" => stepOpt lv ms l
+            | _ => stepExp lv ms l
+          r.getD bad
+
+end Tetl.C07.Driver
+
+def main : IO Unit := Tetl.Proto.runDriver (none : Tetl.C07.Driver.DState) Tetl.C07.Driver.step
